@@ -41,9 +41,41 @@
 #include <sys/resource.h>
 #include <time.h>
 
+#include <sys/syscall.h>
+
+// ---- virtual clock -------------------------------------------------------------------------------
+// std::chrono::system_clock::now() ends in clock_gettime(CLOCK_REALTIME); defining the symbol in the
+// executable interposes it (no source hook needed). While `g_vclock_on` is set every read of the
+// real-time clock returns the virtual time and advances it by `g_vclock_tick_ns`; the Lean model
+// advances its clock at exactly the same read points.
+static bool g_vclock_on = false;
+static long long g_vclock_ns = 0;
+static long long g_vclock_tick_ns = 1000000;
+static long long g_vclock_reads = 0;
+extern "C" int clock_gettime(clockid_t clk, struct timespec* ts)
+{
+    if (g_vclock_on && clk == CLOCK_REALTIME)
+    {
+        ts->tv_sec = (time_t)(g_vclock_ns / 1000000000LL);
+        ts->tv_nsec = (long)(g_vclock_ns % 1000000000LL);
+        g_vclock_ns += g_vclock_tick_ns;
+        g_vclock_reads++;
+        return 0;
+    }
+    return (int)syscall(SYS_clock_gettime, clk, ts);
+}
+namespace vh
+{
+    inline void vclock_start(long long start_ms, long long tick_ms) { g_vclock_ns = start_ms * 1000000LL; g_vclock_tick_ns = tick_ms * 1000000LL; g_vclock_reads = 0; g_vclock_on = true; }
+    inline void vclock_stop() { g_vclock_on = false; }
+    inline long long vclock_ms() { return g_vclock_ns / 1000000LL; }
+    inline long long vclock_reads() { return g_vclock_reads; }
+}
+
 #include "vh_common.h"
 #include "vh_front.h"
 #include "vh_vm.h"
+#include "vh_sched.h"
 
 static std::string handle(const std::string& verb, const std::vector<std::string>& f)
 {
@@ -53,6 +85,7 @@ static std::string handle(const std::string& verb, const std::vector<std::string
         else if (verb == "lex") { return vh::verb_lex(f); }
         else if (verb == "run") { return vh::verb_run(f, false); }
         else if (verb == "trace") { return vh::verb_run(f, true); }
+        else if (verb == "start") { return vh::verb_start(f); }
         else { return "bad-verb"; }
     }
     catch (const std::exception& ex)
